@@ -414,6 +414,30 @@ func TestVerif_C13(t *testing.T) {
 			}
 		}
 
+		// ---- T2b: a valid share presented for a key that is not in the mask ----
+		{
+			i := signers[rng.Intn(k)]
+			j := rng.Intn(64)
+			for tries := 0; tries < 64 && mask&(uint64(1)<<uint(j)) != 0; tries++ {
+				j = rng.Intn(64)
+			}
+			if mask&(uint64(1)<<uint(j)) == 0 {
+				tampers++
+				s := *responses[i]
+				var err error
+				panicked, val, stack := verifkit.Guard(func() { err = cosi.VerifyResponse(publics, j, &s, msg) })
+				switch {
+				case panicked:
+					r.Violation("C13|VerifyResponse|panic|share-for-unmasked-signer", fmt.Sprintf("VerifyResponse panicked at %s for unmasked signer index %d: %v", verifkit.PanicSite(stack), j, val), desc(nil))
+				case err == nil:
+					r.Violation("C13|VerifyResponse|accepted|share-for-unmasked-signer", fmt.Sprintf("VerifyResponse accepted the response of signer %d as the response of index %d, which is not in the mask", i, j),
+						desc(map[string]any{"signer": i, "presented_as": j, "response": hex.EncodeToString(s[:])}))
+				default:
+					r.Count("rejected:share-for-unmasked-signer/VerifyResponse", 1)
+				}
+			}
+		}
+
 		// ---- T3: mask index outside the key vector ----
 		if n < 64 {
 			j := n + rng.Intn(64-n)
